@@ -22,7 +22,7 @@ func init() {
 	fw.Register(&fw.Check{
 		ID:    "C05",
 		Level: "exploration",
-		Rule: "cases: for each of 11 list kinds (block statements, statements of mixed kinds, bare break / continue statements, bare blocks, case-clause bodies, composite-literal elements, call arguments, struct fields, parenthesised value specs, and composite-literal elements / call arguments that are package-qualified identifiers restored with import management) and n = 1..3 " +
+		Rule: "cases: for each of 13 list kinds (parameter and result lists, block statements, statements of mixed kinds, bare break / continue statements, bare blocks, case-clause bodies, composite-literal elements, call arguments, struct fields, parenthesised value specs, and composite-literal elements / call arguments that are package-qualified identifiers restored with import management) and n = 1..3 " +
 			"elements (n = 4 and seeded longer lists in the thorough tier), EVERY assignment of None/NewLine/EmptyLine to Before/After of every element (3^(2n), exhaustive), combined with " +
 			"each comment pattern: none, End line comment, Start line comment, End \"\\n\", End \"\\n\\n\", End line comment + Start line comment. Reference model written from the " +
 			"statement: adjacent After/Before combine by max; one blank line iff that max is EmptyLine (or two explicit \"\\n\" decorations were given), none otherwise; Before of the first " +
@@ -35,7 +35,7 @@ func init() {
 			"top-level declarations are excluded: go/printer forces blank lines between declarations of different kinds regardless of positions",
 			"struct fields and parenthesised specs: gofmt strips blank lines directly after '{'/'(' and before '}'/')', so only between-element blank lines are asserted there",
 		},
-		Required: map[string]int{"list_kinds": 11, "patterns": 9},
+		Required: map[string]int{"list_kinds": 13, "patterns": 9},
 	})
 }
 
@@ -176,6 +176,40 @@ var c05Kinds = []c05Kind{
 			}
 			return out
 		}},
+	{name: "parameters", edges: false, exprList: true,
+		// fields of a parameter list: go/printer decides line breaks from the end line of the
+		// previous field and the start line of the next
+		tmpl: func(n int) string {
+			s := "package p\n\nfunc f(\n"
+			for _, e := range names(n) {
+				s += "\t" + e + " int,\n"
+			}
+			return s + ") {\n}\n"
+		},
+		elems: func(f *dst.File, n int) []dst.Node {
+			var out []dst.Node
+			for _, e := range f.Decls[0].(*dst.FuncDecl).Type.Params.List {
+				out = append(out, e)
+			}
+			return out
+		},
+		openDecs: func(f *dst.File) *dst.Decorations { return &f.Decls[0].(*dst.FuncDecl).Type.Params.Decs.Opening }},
+	{name: "results", edges: false, exprList: true,
+		tmpl: func(n int) string {
+			s := "package p\n\nfunc f() (\n"
+			for _, e := range names(n) {
+				s += "\t" + e + " int,\n"
+			}
+			return s + ") {\n\treturn\n}\n"
+		},
+		elems: func(f *dst.File, n int) []dst.Node {
+			var out []dst.Node
+			for _, e := range f.Decls[0].(*dst.FuncDecl).Type.Results.List {
+				out = append(out, e)
+			}
+			return out
+		},
+		openDecs: func(f *dst.File) *dst.Decorations { return &f.Decls[0].(*dst.FuncDecl).Type.Results.Decs.Opening }},
 	{name: "composite-literal-qualified", edges: true, exprList: true, imports: true,
 		tmpl: func(n int) string {
 			s := "package p\n\nimport \"x/pk\"\n\nvar v = []int{\n"
